@@ -281,6 +281,7 @@ def chk_pred_spelling(g, i):
 def nat_pred_spelling():
     ev, bad = 0, []
     for g in GROUPS:
+        if g.startswith("ann_unhash"): continue          # locations are hashed by the retort: hints with unhashable metadata are outside what a Retort accepts (not claimed)
         for i in range(len(GROUPS[g])):
             ev += 1
             if not chk_pred_spelling(g, i): bad.append({"g": repr(g), "i": str(i)})
